@@ -104,13 +104,17 @@ var redeliveries int64
 func follow(n *hnet.Net, b *hnet.Mined) error {
 	var e error
 	for try := 0; try < 40; try++ {
-		if e = n.Follow(b); e == nil || known(e) || !transient(e) {
+		if e = n.Follow(b); e == nil || known(e) || !transient(e) || atomic.LoadInt32(&dying) != 0 {
 			break
 		}
 		atomic.AddInt64(&redeliveries, 1)
 	}
 	return e
 }
+
+// dying is set while the run that is being crashed executes: a process that dies does not get to retry (and
+// after the crash point every refusal is an artefact of the dropped writes).
+var dying int32
 
 func known(err error) bool {
 	return err != nil && (strings.Contains(err.Error(), "already known") || strings.Contains(err.Error(), "known block") || strings.Contains(err.Error(), "Already in process"))
@@ -263,7 +267,9 @@ func enumerate(m *mon.M, base *hnet.Net, pre images, act action, oldHeads []stri
 			verify(m, base, im, act, acceptable, next, k, total, "startup", zoneOnly)
 			continue
 		}
+		atomic.StoreInt32(&dying, 1)
 		act.run(nn) // errors and panics after the crash point are those of a dead process
+		atomic.StoreInt32(&dying, 0)
 		ctl.Crash()
 		nn.Stop()
 		kind := "end"
